@@ -62,6 +62,9 @@ def gen(rng, tier, run):
             tgt = rng.choice([case['ref']] + case['dss'])
             tgt[rng.randrange(size)] = rng.choice([float('nan'), float('nan'), float('inf')])
         case['err'] = [rng.choice([0.1, 0.5, 1.0]) for _ in range(size)]
+        # a first / last bin far wider than its neighbour (open-ended grids), compared datasets that share a name
+        case['wide'] = rng.choice([None, None, None, 'last', 'first', 'both'])
+        case['same_names'] = rng.random() < 0.3
         case['alpha'] = rng.choice([0.01, 0.05, 0.2])
     case['ops'] = [{'op': rng.choice(OPS), 'verb': rng.randrange(0, 6), 'key': rng.randrange(0, 6),
                     'rep': rng.choice(['table', 'plot', 'full', 'fulltable', 'fullplot'])} for _ in range(rng.randrange(1, 13))]
@@ -139,12 +142,17 @@ def build(case):
 
     def mkds(vals, name):
         bins = OrderedDict((f'b{ax}', np.arange(n + 1, dtype=float)) for ax, n in enumerate(shape))
+        for edges in bins.values():
+            if case.get('wide') in ('last', 'both'):
+                edges[-1] = 1e30
+            if case.get('wide') in ('first', 'both') and len(edges) > 2:
+                edges[0] = -1e30
         if shape:
             return Dataset(np.array(vals, dtype=float).reshape(shape), np.array(case['err'], dtype=float).reshape(shape),
                            bins=bins, name=name)
         return Dataset(np.float64(vals[0]), np.float64(case['err'][0]), name=name)
     ref = mkds(case['ref'], 'ref')
-    dss = [mkds(v, f'ds{i}') for i, v in enumerate(case['dss'])]
+    dss = [mkds(v, 'ds' if case.get('same_names') else f'ds{i}') for i, v in enumerate(case['dss'])]
     if kind == 'equal':
         return gtest.TestEqual(ref, *dss, name='eq'), fps
     if kind == 'approx':
